@@ -24,14 +24,23 @@ type ProtoName struct {
 	Name string `json:"name"     short:"n" long:"name"     description:"Unique endpoint name. Must match on the client and the server. E.g. 'ssh'."`
 }
 
+// Location is the place to dial or listen on: host:port for network addresses, the socket path for the unix
+// family. A URL like unix:///var/run/app.sock has an empty Host, its path is in Path.
+func (pa *ProtoAddress) Location() string {
+	if pa.Host != "" {
+		return pa.Host + pa.Path
+	}
+	return pa.Path
+}
+
 func (pa *ProtoAddress) Addr() (net.Addr, error) {
 	switch pa.Scheme {
 	case "udp", "udp4", "udp6":
 		return net.ResolveUDPAddr(pa.Scheme, pa.Host)
 	case "unix", "unixgram", "unixpacket":
-		return net.ResolveUnixAddr(pa.Scheme, pa.Host)
+		return net.ResolveUnixAddr(pa.Scheme, pa.Location())
 	case "unix+tls", "unixpacket+tls":
-		return net.ResolveUnixAddr(PlusEnd.ReplaceAllString(pa.Scheme, ""), pa.Host)
+		return net.ResolveUnixAddr(PlusEnd.ReplaceAllString(pa.Scheme, ""), pa.Location())
 	case "tcp", "tpc4", "tcp6":
 		return net.ResolveTCPAddr(pa.Scheme, pa.Host)
 	case "tcp+tls", "tpc4+tls", "tcp6+tls":
